@@ -231,6 +231,7 @@ func (a *c06Local) Sign(_ context.Context, data []byte) (e2types.Signature, erro
 	if c06Refuse {
 		return nil, errors.New("refused by the account")
 	}
+	mc.Yield() // unlocking a key, a hardware signer: other requests may run before the data is read
 	return a.key.Sign(data), nil
 }
 
@@ -639,6 +640,7 @@ type c06Req struct {
 	history string
 	refused bool // every account refused to sign during the judged request
 	batch   bool
+	specGap bool // the beacon node's spec does not list the domain type of this duty (builder domain only)
 }
 
 func (rq *c06Req) domain() phase0.Domain {
@@ -866,6 +868,9 @@ func c06Judge(rq *c06Req) (clause, msg string) {
 		}
 		return "", ""
 	}
+	if rq.err != nil && rq.specGap {
+		return "", "" // refusing to sign without the domain type is fine
+	}
 	if rq.err != nil {
 		return "request-failed", fmt.Sprintf("no signature returned although every account and the domain provider work: %v", rq.err)
 	}
@@ -1027,11 +1032,18 @@ func c06Units(tier string) []hx.Unit {
 						rq.accts = append(rq.accts, c06Ring[k][n])
 					}
 					dp := &c06Domains{}
+					specMap := baseSpec(12*time.Second, c06SlotsPerEpoch)
+					if ep.name == "registration" && mc.Choose(2) == 1 {
+						// a beacon node whose spec does not list the builder domain type (it is not part of the
+						// consensus spec): the signer may refuse registrations, it must not sign over another domain
+						delete(specMap, "DOMAIN_APPLICATION_BUILDER")
+						rq.specGap = true
+					}
 					svc, err := standardsigner.New(context.Background(),
 						standardsigner.WithLogLevel(zerolog.Disabled),
 						standardsigner.WithMonitor(nullmetrics.New()),
 						standardsigner.WithClientMonitor(nullmetrics.New()),
-						standardsigner.WithSpecProvider(&specProvider{m: baseSpec(12*time.Second, c06SlotsPerEpoch)}),
+						standardsigner.WithSpecProvider(&specProvider{m: specMap}),
 						standardsigner.WithDomainProvider(dp),
 					)
 					must(err)
@@ -1069,6 +1081,9 @@ func c06Units(tier string) []hx.Unit {
 					c06Refuse = false
 					if rq.refused {
 						rq.desc += " (every account refuses to sign)"
+					}
+					if rq.specGap {
+						rq.desc += " (the beacon node's spec lacks DOMAIN_APPLICATION_BUILDER)"
 					}
 					rq.desc += rq.history
 					rq.asked = dp.asked
@@ -1114,6 +1129,68 @@ func c06Units(tier string) []hx.Unit {
 				units = append(units, u)
 			}
 		}
+	}
+	// two requests at the same time on one signer instance (two duty jobs of one slot), local accounts, under
+	// every interleaving with one preemption: each signature is over its own request's signing root
+	for _, pair := range [][2]string{{"randao", "randao"}, {"randao", "aggregate-and-proof"}, {"proposal", "registration"}} {
+		pair := pair
+		rqs := [2]*c06Req{{}, {}}
+		var eps [2]*c06EP
+		for i := range eps {
+			for k := range c06EPs {
+				if c06EPs[k].name == pair[i] {
+					eps[i] = &c06EPs[k]
+				}
+			}
+		}
+		if eps[0] == nil || eps[1] == nil {
+			panic("c06: unknown entry point in " + pair[0] + "+" + pair[1])
+		}
+		u := hx.Unit{Name: "C06/concurrent/" + pair[0] + "+" + pair[1], Cfg: mc.Config{Horizon: int64(time.Minute)}, Bound: 1}
+		if tier == "thorough" {
+			u.Bound = 2
+		}
+		u.Body = func() {
+			dp := &c06Domains{}
+			svc, err := standardsigner.New(context.Background(), standardsigner.WithLogLevel(zerolog.Disabled), standardsigner.WithMonitor(nullmetrics.New()), standardsigner.WithClientMonitor(nullmetrics.New()),
+				standardsigner.WithSpecProvider(&specProvider{m: baseSpec(12*time.Second, c06SlotsPerEpoch)}), standardsigner.WithDomainProvider(dp))
+			must(err)
+			done := make(chan struct{}, 2)
+			c06Fixed = true
+			for i := 0; i < 2; i++ {
+				i := i
+				*rqs[i] = c06Req{ep: eps[i].name}
+				rqs[i].accts = []*c06Acct{c06Ring['L'][i]}
+				mc.Go(func() {
+					eps[i].run(context.Background(), svc, 72, rqs[i].accts, rqs[i])
+					rqs[i].done = true
+					mc.Send(done, struct{}{})
+				})
+			}
+			mc.Recv(done)
+			mc.Recv(done)
+			c06Fixed = false
+		}
+		u.Check = func(r *mc.Result) mc.Verdict {
+			v := mc.Verdict{Outcome: "concurrent/" + pair[0] + "+" + pair[1], Nontrivial: true, Sample: rqs[0].desc + " || " + rqs[1].desc}
+			if r.Panic != "" {
+				v.Violation, v.Key = "panic in concurrent requests: "+firstLine(r.Panic), "C06/concurrent/panic"
+				return v
+			}
+			for i := 0; i < 2; i++ {
+				if !rqs[i].done {
+					v.Violation, v.Key = "a concurrent request did not complete: "+rqs[i].desc, "C06/concurrent/incomplete"
+					return v
+				}
+				if clause, msg := c06Judge(rqs[i]); clause != "" {
+					v.Violation = fmt.Sprintf("%s, while %s ran at the same time on the same signer: %s", rqs[i].desc, rqs[1-i].desc, msg)
+					v.Key = "C06/concurrent/" + clause
+					return v
+				}
+			}
+			return v
+		}
+		units = append(units, u)
 	}
 	// a large attestation batch (a node with many validators): 300 ordinary remote accounts, committee indices
 	// that differ from position to position (and between positions 256 apart)
@@ -1191,7 +1268,7 @@ func init() {
 			"x accounts: single-account entry points with a local, an ordinary remote and a distributed remote account; batch entry points with every sequence of length <= 3 (thorough 4) over {ordinary, distributed} remote accounts " +
 			"and homogeneous batches of local accounts of the same lengths, distinct accounts per position and, for sync selection proofs and contributions, also one account per kind repeated; one attestation batch of 256 / 300 ordinary remote accounts whose committee indices differ from position to position; " +
 			"accounts hold real BLS keys (distributed: 2-of-3 threshold signing with recovery of the composite signature); each returned signature is verified under the account's validator key against sha256(root_i || domain) with root and domain recomputed from the specifications; " +
-			"x accounts sign / every account refuses to sign (a single-account request must then fail; a batch may return empty signatures); x history on the same signer instance: none, an earlier request of the same kind on either side of the fork (slot 79 / 80), or an earlier request that failed because the beacon node could not supply the domain; " +
+			"plus pairs of requests running at the same time on one signer (local accounts whose signing yields before reading its input), every interleaving with one preemption (thorough two); x accounts sign / every account refuses to sign (a single-account request must then fail; a batch may return empty signatures); x history on the same signer instance: none, an earlier request of the same kind on either side of the fork (slot 79 / 80), or an earlier request that failed because the beacon node could not supply the domain; " +
 			"non-trivial = batch with accounts of both remote kinds, or a slot at the start of an epoch or after the fork; distinct = entry point x account class x fork side",
 		Assumptions: []string{
 			"accounts and the domain provider are fault-free during the judged request, so a returned error is reported as a finding (no signature where the statement requires one); the history request may meet an unavailable beacon node",
